@@ -27,6 +27,7 @@ def run_all(chk, fsets, tier):
     widths = None if tier == "thorough" else (64,)
     deps.writer_content(chk, F0, fsets[0], "K5.primitives.writer", widths, "codes are written through write_bits/write_unary (C01.W6)")
     deps.reader_content(chk, F0, fsets[0], "K5.primitives.reader", widths, "codes are read through read_bits/peek_bits/skip/read_unary of the buffered and the unbuffered reader (C02.R7)")
+    deps.end_of_stream(chk, F0, tier, ("E3.order",), "K5.primitives.lookahead", "a failed look-ahead fetch at the end of a strict stream leaves the reader as it was, so the last codes are decoded from the position they start at and the position after them is right (C09)")
     chk.rule("K5.primitives.unbuffered", floor=20, doc="E3 obligations of the unbuffered reader, including: a successful read_unary found a terminating one inside the word it counted (C02.R2) [included]")
     rn.run_specs(chk, F0, [s for s in rn.reader_specs() if s.key.startswith("bitreader.") and s.group is None], "K5.primitives.unbuffered", fsets[0])
     chk.trust("rustc MIR, exporter, contract table, LP entailment; lemmas L4-L7 and the stream-domain assumption are listed, not discharged")
